@@ -962,10 +962,10 @@ func cmdRun(args []string) int {
 			env = raceEnv(env, filepath.Join(verifDir, ".build", "racelog", "confirm"))
 		}
 		runReplay := func(path string) (int, string) {
-			attempts := 1
-			if f.Race {
-				attempts = 3 // the race runtime keeps a bounded access history; a report can be lost
-			}
+			// (the race runtime keeps a bounded access history, so a report can be lost; and an
+			// engine change may have made the engine itself nondeterministic - Go's map order -,
+			// in which case a faithful replay reproduces only some of the time)
+			attempts := 3
 			code, outs := 0, ""
 			for a := 0; a < attempts; a++ {
 				cmd := exec.Command(bin, "replay", "-quiet", "-file", path)
